@@ -230,7 +230,9 @@ func VerifH_C09_ClientMultiGet() {
 	mg := &AddressBookMultiGet{DataRequest: symDataRequest()}
 	n := vrt.Choose("nhrefs", vrt.Param("maxhrefs", 3)+1)
 	for i := 0; i < n; i++ {
-		mg.Paths = append(mg.Paths, "/dav/ab/"+vrt.Str("name"))
+		// arbitrary bytes (every value) so that any escaping/parsing on the
+		// way is executed from the real net/url code
+		mg.Paths = append(mg.Paths, "/dav/ab/"+vrt.StrN("name", 1+vrt.Choose("name-len", vrt.Param("namelen", 1))))
 	}
 	hc := &internal.VerifHTTPClient{}
 	c := newVerifClient(hc)
